@@ -20,4 +20,12 @@ static void hex_from(const Args &a) {
     Ev ev("hex.from"); ev.b("str", s).n("space", (long long)space).n("ret", ret < 0 ? -1 : ret)
         .b("out", out.get(w <= space ? w : 0)).n("guard", out.guards_ok()); ev.emit();
 }
-void reg_misc() { reg("hex.to", hex_to); reg("hex.from", hex_from); }
+// ascon_clean(buf + off, n): exactly those bytes become zero, nothing else in the buffer changes
+static void util_clean(const Args &a) {
+    bytes_t d = a.hex("in"); size_t off = (size_t)a.num("off"), n = (size_t)a.num("n");
+    if (off + n > d.size()) fatal("util.clean: range outside the buffer");
+    OutBuf buf(d.size(), (unsigned)a.num("align")); buf.load(d);
+    ascon_clean(n == 0 && a.num("null_if_empty") ? (void *)0 : (void *)(buf.p + off), n);
+    Ev ev("util.clean"); ev.b("in", d).n("off", (long long)off).n("n", (long long)n).b("out", buf.get(d.size())).n("guard", buf.guards_ok()); ev.emit();
+}
+void reg_misc() { reg("util.clean", util_clean); reg("hex.to", hex_to); reg("hex.from", hex_from); }
